@@ -91,7 +91,7 @@ Proof. exact GateProofs.gate_counters_monotone. Qed.
 Print Assumptions C15_gate_counters_monotone.
 
 Example C15_gate_example :
-  let cf := GateModel.MkCfg 2 false in
+  let cf := GateModel.MkCfg 2 false true in
   let tr := [GateModel.ASendSub 1; GateModel.ARoot; GateModel.ABegin 0; GateModel.ADeliver 0; GateModel.AEnd 0;
              GateModel.ARxDrop 0; GateModel.ABegin 0; GateModel.ADeliver 0; GateModel.AEnd 0] in
   (GateModel.m_upd (GateModel.run cf tr), GateModel.m_drop (GateModel.run cf tr)) = (2, 1).
